@@ -381,7 +381,10 @@ static void worker_main(const Property* P, int w, uint64_t seed, bool thorough) 
         __atomic_store_n(&SH->cur_index[w], ridx, __ATOMIC_RELAXED);
         RunCtx ctx; ctx.seed = seed; ctx.index = ridx; ctx.thorough = thorough;
         T.start_generate(seed, pid_hash, ridx);
+        double tr0 = now_s();
         RunResult r = execute(P, ctx, false);
+        uint64_t ms = (uint64_t)((now_s() - tr0) * 1000);
+        if (ms > SH->slow_ms) { SH->slow_ms = ms; SH->slow_index = ridx; }
         if (recheck) {
             __atomic_fetch_add(&SH->rehash_checked, 1, __ATOMIC_RELAXED);
             if (ridx < Shared::HASH_SLOTS && SH->hashes[ridx] != r.hash) __atomic_fetch_add(&SH->rehash_mismatch, 1, __ATOMIC_RELAXED);
@@ -470,7 +473,7 @@ int main(int argc, char** argv) {
         ChildResult r = run_child(cs);
         printf("replay %s: status=%d sig=%s hash=%" PRIu64 " (recorded sig=%s hash=%" PRIu64 ")\n", replay.c_str(), r.status,
                r.sig.c_str(), r.hash, sig.c_str(), rhash);
-        if (verbose) { printf("plan: %s\n", r.sample.c_str()); for (auto& e : r.events) printf("  %s\n", e.c_str()); if (!r.stderr_text.empty()) printf("%s\n", r.stderr_text.substr(0, 4000).c_str()); }
+        if (verbose) { printf("plan: %s\n", r.sample.c_str()); for (auto& e : r.events) printf("  %s\n", e.c_str()); if (!r.stderr_text.empty()) printf("---- child stderr ----\n%s\n", r.stderr_text.substr(0, 12000).c_str()); }
         if (r.status == 3) return 2;
         if (r.status == 1) {
             printf("detail: %s\n", r.detail.c_str());
@@ -674,5 +677,6 @@ int main(int argc, char** argv) {
     for (auto& l : viol_lines) printf("%s\n", l.c_str());
     printf("summary property=%s runs=%" PRIu64 " evals=%" PRIu64 " nontrivial=%" PRIu64 " distinct=%" PRIu64 " refusals=%" PRIu64 " deaths=%zu wall=%.1fs (%0.f runs/s) determinism_recheck=%" PRIu64 "/%" PRIu64 " ok\n",
            P->id, (uint64_t)SH->done, (uint64_t)SH->evals, (uint64_t)SH->nontrivial, (uint64_t)SH->distinct_nontrivial, (uint64_t)SH->refusals, deaths.size(), wall, SH->done / std::max(t_campaign, 1e-3), SH->rehash_checked - SH->rehash_mismatch, (uint64_t)SH->rehash_checked);
+    printf("slowest run: index %" PRIu64 " took %" PRIu64 " ms\n", (uint64_t)SH->slow_index, (uint64_t)SH->slow_ms);
     return exit_status;
 }
